@@ -80,6 +80,10 @@ FORMS += [
     ('dictcomp', '{{({0}): ({1}) for x in y}}', 2),
     ('genexp', '(({0}) for x in ({1}))', 2),
     ('genexp-call', 'f(({0}) for x in y)', 1),
+    # a generator expression that is not the only argument keeps its parentheses
+    ('genexp-call-kw', 'f((({0}) for x in y), key=({1}))', 2),
+    ('genexp-call-more', 'f((({0}) for x in y), ({1}))', 2),
+    ('genexp-call-dstar', 'f((x for x in ({0})), **({1}))', 2),
     ('re-compile', "re.compile(({0}))", 1),
     ('re-compile-flags', "re.compile('a+', ({0}))", 1),
 ]
